@@ -174,11 +174,20 @@ def _mk_xml(family):
                             local == cls.__name__, detail=(xt, dict(elt.nsmap)))
             else:
                 c.check('no_type_marker', xt is None or xt.endswith(':A') or xt == 'A', detail=xt)
-        # send the transmitted element(s) back
+        # send the transmitted element(s) back -- as sent, or with the marker's prefix re-bound by the document to a
+        # prefix that the receiving interface uses for another namespace (resolution must use the document's bindings)
+        rebound = c.choose([False, True], 'marker_prefix_rebound_in_document')
+        if rebound:
+            for e in result.iter():
+                xt = e.get('{%s}type' % XSI)
+                if xt is not None and ':' in xt:
+                    e.set('{%s}type' % XSI, 'xs:' + xt.split(':', 1)[1])
         inner = b''.join(etree.tostring(ch) for ch in result).decode() if True else ''
         attrs = ''.join(' %s="%s"' % (('xsi:type', v) if k.endswith('}type') else (k, v)) for k, v in result.attrib.items())
         nsdecl = ''.join(' xmlns:%s="%s"' % (p, u) for p, u in result.nsmap.items() if p and p not in ('xsi', 'tns'))
         nsdecl += ' xmlns:xsi="%s"' % XSI
+        if rebound:
+            nsdecl += ' xmlns:xs="%s"' % TNS
         if what == 'many':
             back = '<tns:echo_many><tns:items%s>%s</tns:items></tns:echo_many>' % (nsdecl, inner)
         else:
